@@ -1272,6 +1272,9 @@ def leaf_alphabet(thorough: bool):
     L["bs_near_hi"] = B(0.0, float(np.nextafter(np.float32(1.0), np.float32(2.0))))
     L["bs_near_lo"] = B(-1e-9, 1.0)
     L["bs_1000"], L["bs_1000b"] = B(0.0, 1000.0), B(0.0, 1000.005)
+    # coordinates pinned (low == high) at values with long float32 mantissas: a sampler that interpolates instead of drawing in [low, high)
+    # lands an ulp outside
+    L["bs_pin"], L["bv_pin"] = B(0.1, 0.1), B([0.1, -0.7, 123.456], [0.1, -0.7, 123.456])
     if thorough:
         L["D4"] = D(4)
         L["bw_fin"] = B([-1.0, 0.0, 1.0], [0.0, 0.0, 4.0])
